@@ -141,6 +141,8 @@ namespace mfuse
     private:
         SafePtr<ScriptThread> m_PreviousThread;
         SafePtr<ScriptThread> m_CurrentThread;
+        /** Number of thread executions in progress (nested thread calls, resumed threads). */
+        size_t m_ExecutionDepth = 0;
         con::map<const_str, ProgramScript*> m_ProgramScripts;
         con::timer timerList;
         ScriptClass* headScript;
